@@ -679,7 +679,7 @@ func runC15(ctx *Ctx) {
 	runC15Corpus(ctx)
 	runC15Enum(ctx)
 	// 1. round trips
-	n := ctx.N(1500, 40000)
+	n := ctx.N(1000, 40000)
 	for i := 0; i < n; i++ {
 		t0 := genTy(r, depth, TyOpts{Dyn: true})
 		v := c15Val(r, t0, depth, c15Opts{Null: true})
@@ -695,7 +695,7 @@ func runC15(ctx *Ctx) {
 		}
 	}
 	// 2. values JSON cannot represent
-	n = ctx.N(600, 10000)
+	n = ctx.N(400, 10000)
 	for i := 0; i < n; i++ {
 		t0 := genTy(r, depth, TyOpts{Dyn: true, Capsule: i%5 == 0})
 		v := c15Val(r, t0, depth, c15Opts{Null: true, Unknown: true, Marks: true, Inf: true, Capsule: true})
@@ -749,7 +749,11 @@ func runC15Corpus(ctx *Ctx) {
 		{`{"value":1,"type":["object",{"a":"string"},["b"]]}`, cty.DynamicPseudoType},
 	}
 	for _, d := range docs {
-		c15Unmarshal(ctx, []byte(d.doc), d.t)
+		// regression: these inputs made the decoder panic before /repo e63bbcc, 4e1e2c6, 5020d30
+		if _, o := c15Unmarshal(ctx, []byte(d.doc), d.t); o == "panic" {
+			ctx.Fail(Failure{Site: "regression", Sig: "decoder-panic:" + d.doc, What: "a repaired decoder panic is back", Input: d.doc + " " + encTy(d.t),
+				GoLit: fmt.Sprintf("json.Unmarshal([]byte(%q), %#v)", d.doc, d.t), Outcome: "panic"})
+		}
 	}
 	c15Doc(ctx, &jdoc{kind: 'o', keys: []string{"e\u0301"}, kids: []*jdoc{{kind: 'n'}}})
 }
